@@ -11,6 +11,7 @@ STK_ASSUME = [
     "block time non-decreasing; staking parameters fixed at setup; validator commissions <= 1",
     "nobody signs as the staking pool account `staking_module`",
     "amounts and time spans small enough that 128-bit fixed-point arithmetic does not overflow",
+    "C15 lower bound: 'a delegation stays positive' is read as 'the Delegation query shows it' (>= 1 whole token); a sub-token remnant alone with its validator (whole-token total 0) accrues nothing",
 ]
 
 _RULE = ("histories of 6-28 ops (10-60 thorough) over 3 delegators + a withdraw-only account x 2-3 validators with commissions "
@@ -26,9 +27,9 @@ ENGINES = [
 ]
 
 
-def _entry(pid, technique, level_text, rule_tail, pred, nt, quick=1500, thorough=20000):
+def _entry(pid, technique, level_text, rule_tail, pred, nt, quick=6000, thorough=20000):
     return {
-        "claimed": False,
+        "claimed": True,
         "engine": "staking",
         "technique": technique,
         "level_text": level_text,
@@ -45,21 +46,21 @@ def _entry(pid, technique, level_text, rule_tail, pred, nt, quick=1500, thorough
 PROPS = {
     "C14": _entry(
         "C14",
-        "Lean 4 theorems (inductive invariant I1-I4 over every operation and block update, no-panic over arbitrary histories, exact delegation effect, rejection, "
+        "Lean 4 theorems (inductive invariant I1-I5 over every operation and block update, no-panic over arbitrary histories, exact delegation effect, rejection, "
         "payout timing) + differential correspondence of the executable model with the real App/StakeKeeper",
         "The staking machine is transcribed into Lean with every expect/unwrap as an explicit panic outcome; an invariant (staker sets in step with the records, "
-        "queue sorted, pool covers validator totals plus pending unbondings) is proved inductive and yields that no history of operations and block updates panics; "
+        "queue sorted, pool covers validator totals plus pending unbondings, validator total >= whole tokens of the sum of its shares) is proved inductive and yields that no history of operations and block updates panics; "
         "the model is tied to /repo by running both on the same histories and comparing the complete decoded module state after every op.",
         "non-trivial = a block update runs after an accepted slash that followed an accepted undelegation",
-        "pred_c14", "nt_c14"),
+        "pred_c14", "nt_c14", quick=7500),
     "C15": _entry(
         "C15",
         "Lean 4 theorems (withdrawal pays exactly the shown reward, other delegators' shown rewards unchanged, floor-division bounds of one reward update) "
         "+ differential correspondence + exact-rational bounds recomputed on the implementation transcript",
         "Reward arithmetic is modelled on Nat atomics with the exact rounding of cosmwasm-std; the per-update over/under-crediting is bounded by theorem, the exact statements "
-        "(pays what is shown, others unaffected) are proved for all states; the upper and lower bounds of the property are evaluated with exact rationals on every generated history.",
+        "(pays what is shown, others unaffected) are proved for all states; the upper and lower bounds are proved per update and summed over any ledger of updates and withdrawals (2 / 4 atomics per update under invariant I5); the replay of operation histories as ledger traces is covered by exact-rational evaluation on every generated history.",
         "non-trivial = at least one accepted reward withdrawal",
-        "pred_c15", "nt_c15"),
+        "pred_c15", "nt_c15", quick=7500),
     "C16": _entry(
         "C16",
         "Lean 4 theorems (scaling of shares, totals and pending unbondings, monotonicity, frame, full slash, rejection, exactness when whole, composition over repeated slashes) "
@@ -67,5 +68,5 @@ PROPS = {
         "Slashing is modelled with the exact floor semantics; scaling, frame and rejection theorems hold for every state, fraction and number of repeated slashes; "
         "the model is tied to /repo by the staking correspondence slice.",
         "non-trivial = at least two accepted non-zero slashes",
-        "pred_c16", "nt_c16"),
+        "pred_c16", "nt_c16", quick=10000),
 }
